@@ -150,7 +150,9 @@ pub fn run(ctx: &mut Ctx) {
             let res = guard(|| {
                 let a = Time::try_from_hms(hh, mi, ss, f).ok()?;
                 let b = Time::try_from_usecs(us).ok()?;
-                Some((a == b && time_fields_ok(a, us) && Time::is_valid(hh, mi, ss, f) && h(&a) == h(&b), a))
+                // unchecked constructors with their precondition satisfied
+                let (c, d, e) = unsafe { (Time::from_hms_unchecked(hh, mi, ss, f), Time::from_usecs_unchecked(us), Timestamp::from_usecs_unchecked(us - US_DAY)) };
+                Some((a == b && a == c && a == d && e.usecs() == us - US_DAY && e.extract().1 == a && time_fields_ok(a, us) && Time::is_valid(hh, mi, ss, f) && h(&a) == h(&b), a))
             });
             match res {
                 Ok(Some((true, t))) => {
